@@ -47,3 +47,11 @@ flow_contract(
     ensures_finished=["truthy(allowed)"],
     assigns=[],
 )
+
+# further shipped OUTPUT rails of the same shape: they finish only when their check let the output through
+for _file, _flow, _globals, _ok in [
+    ("nemoguardrails/library/content_safety/flows.co", "content safety check output", ["allowed", "policy_violations"], "truthy(allowed)"),
+    ("nemoguardrails/library/llama_guard/flows.co", "llama guard check output", ["allowed", "llama_guard_policy_violations"], "truthy(allowed)"),
+    ("nemoguardrails/library/patronusai/flows.co", "patronus lynx check output hallucination", ["hallucination", "reasoning"], "not truthy(hallucination)"),
+]:
+    flow_contract(_file, _flow, version="2.x", prop="C02", globals=_globals, ensures_finished=[_ok], assigns=list(_globals))
